@@ -121,7 +121,7 @@ class ClassWorld:
                     ('ecblock', 1.2),
                     ('watchnew', 1), ('cparam', 2.5), ('poison', 1.5), ('addp_bad', 1.5)],
             'C14': [('new', 3), ('newk', 2), ('kset', 5), ('kupdate', 2), ('cset', 3), ('rset', 2), ('ec_open', 3), ('ec_close', 2.5), ('ec_close_first', 1), ('ec_raise', 1.5),
-                    ('touch', 1.5), ('iset', 2), ('nameset', 1), ('kref', 1.5), ('srcset', 1.5), ('newkref', 1), ('srcset_fail', 1), ('srcset_rebind', 1), ('cname', 1), ('ec_flagwatch', 1), ('srcset_invalid', 1)],
+                    ('touch', 1.5), ('iset', 2), ('nameset', 1), ('kref', 1.5), ('srcset', 1.5), ('newkref', 1), ('srcset_fail', 1), ('srcset_rebind', 1), ('cname', 1), ('ec_flagwatch', 1), ('srcset_invalid', 1), ('ec_flagflip', 1)],
         }[prop]
         depth = 0
         for _ in range(n_ops):
@@ -1017,6 +1017,35 @@ class _Run:
             for q in ('k', 'r'):
                 if q in self.visible(self.im[i]['c']):
                     self.ensure_copy(i, q)
+        elif k == 'ec_flagflip' and has_inst:
+            # code inside the block flips the `constant` flags it finds itself (the idiom of libraries built on param:
+            # obj.param.objects('existing') -> constant = False ... restore) and assigns meanwhile; the instance gets its own
+            # Parameter object then. Once the blocks are left the object is locked again
+            m = self.im[i]
+            if 'k' not in self.visible(m['c']) or any(ii == i for _, ii in self.ec) or i in self.fuzzy:
+                return
+            o = self.insts[i]
+            new = self.new_list()
+            with param.parameterized.edit_constant(o):
+                flags = [(pobj, pobj.constant) for pobj in o.param.objects('existing').values()]
+                for pobj, _ in flags:
+                    pobj.constant = False
+                try:
+                    o.k = new
+                finally:
+                    for pobj, flag in flags:
+                        pobj.constant = flag
+            self.ensure_copy(i, 'k')
+            m['values']['k'] = new
+            m['linked_k'] = False
+            self.out.stats['probe.constant_flags_flipped_by_hand_inside_edit_constant'] += 1
+            try:
+                o.k = self.new_list()
+            except TypeError:
+                pass
+            else:
+                self.viol('C14.flags', f"after edit_constant(I{i}) - inside which the constant flags were flipped by hand and I{i}.k was assigned - "
+                                       f"I{i}.k can still be rebound (obj.param.k.constant is {o.param.k.constant})")
         elif k == 'ecblock' and has_inst:
             # a complete edit_constant block on an instance (entered internally by reference syncing too): no effect on any namespace
             with param.parameterized.edit_constant(self.insts[i]):
